@@ -23,6 +23,7 @@ import (
 	"math/big"
 	"os"
 	"path/filepath"
+	"regexp"
 	"sort"
 	"strings"
 
@@ -63,6 +64,8 @@ type world struct {
 	root      []bool
 	statics   [][]staticSite // per callee: static call sites
 	closures  [][]*ssa.MakeClosure
+	// in-scope class-hierarchy callees of interface call sites
+	siteCallees map[ssa.CallInstruction][]int
 }
 
 type staticSite struct {
@@ -107,19 +110,38 @@ func main() {
 	explain := flag.Bool("explain", false, "print the reachable shared writes and guarded-location reads to stderr")
 	flag.Parse()
 
-	cfg := &packages.Config{Mode: packages.LoadAllSyntax, Dir: *repo, Tests: false}
-	pkgs, err := packages.Load(cfg, "./schema", "./atp")
-	if err != nil {
-		fatal("load: %v", err)
+	// Generic code only has a body to analyse where it is instantiated. Pass 1 finds the generic functions
+	// of the packages; pass 2 loads the packages again with one extra (overlay, in-memory) file per package
+	// that instantiates each of them, so that the step, signal and typed schema types get their methods.
+	load := func(overlay map[string][]byte) []*packages.Package {
+		cfg := &packages.Config{Mode: packages.LoadAllSyntax, Dir: *repo, Tests: false, Overlay: overlay}
+		pkgs, err := packages.Load(cfg, "./schema", "./atp")
+		if err != nil {
+			fatal("load: %v", err)
+		}
+		if packages.PrintErrors(pkgs) > 0 {
+			fatal("packages have errors")
+		}
+		return pkgs
 	}
-	if packages.PrintErrors(pkgs) > 0 {
-		fatal("packages have errors")
+	overlay := map[string][]byte{}
+	for _, pkg := range load(nil) {
+		if src := instancesFile(pkg); src != "" && len(pkg.GoFiles) > 0 {
+			overlay[filepath.Join(filepath.Dir(pkg.GoFiles[0]), "zz_effects_instances.go")] = []byte(src)
+		}
 	}
+	if os.Getenv("EFFECTS_DEBUG") != "" {
+		for k, v := range overlay {
+			fmt.Fprintf(os.Stderr, "OVERLAY %s\n%s\n", k, v)
+		}
+	}
+	pkgs := load(overlay)
 	prog, _ := ssautil.AllPackages(pkgs, ssa.InstantiateGenerics)
 	prog.Build()
 
-	w := &world{prog: prog, fset: prog.Fset, id: map[*ssa.Function]int{}}
+	w := &world{prog: prog, fset: prog.Fset, id: map[*ssa.Function]int{}, siteCallees: map[ssa.CallInstruction][]int{}}
 	all := ssautil.AllFunctions(prog)
+	debugAll(w, all)
 	for f := range all {
 		if scopePkgs[pkgPathOf(f)] {
 			w.funcs = append(w.funcs, f)
@@ -172,6 +194,9 @@ func main() {
 				continue
 			}
 			w.succ[ci][cj] = true
+			if e.Site != nil && e.Site.Common().IsInvoke() {
+				w.siteCallees[e.Site] = append(w.siteCallees[e.Site], cj)
+			}
 			if e.Site != nil && e.Site.Common().StaticCallee() == e.Callee.Func {
 				w.statics[cj] = append(w.statics[cj], staticSite{ci, e.Site.Common().Args})
 			} else {
@@ -280,6 +305,8 @@ func main() {
 
 	// ---- effects ---------------------------------------------------------------------------
 	w.analyse()
+	w.debugSummaries()
+	w.debugFunc()
 
 	var writes, reads []access
 	guardedLoc := map[string]bool{}
@@ -304,6 +331,22 @@ func main() {
 			reads = append(reads, a)
 		}
 	}
+	externSet := map[string]bool{}
+	for i := range w.funcs {
+		if !reach[i] {
+			continue
+		}
+		for _, a := range w.info[i].externs {
+			if w.sharedOrg(i, a.org) {
+				externSet[a.kind] = true
+			}
+		}
+	}
+	var externs []string
+	for e := range externSet {
+		externs = append(externs, e)
+	}
+	sort.Strings(externs)
 	spawns := new(big.Int)
 	for i := range w.funcs {
 		if w.info[i].spawns {
@@ -371,8 +414,17 @@ func main() {
 	}
 	emit("effectsWrites", writes)
 	emit("effectsReads", reads)
+	p("/-- library functions that receive a reference to shared memory from a reachable function\n    (those known to write through it are listed as writes instead) -/\ndef effectsExterns : List String := [\n")
+	for k, e := range externs {
+		sep := ","
+		if k == len(externs)-1 {
+			sep = ""
+		}
+		p("  %s%s\n", leanStr(e), sep)
+	}
+	p("]\n\n")
 	p("def effects : Table :=\n  { names := effectsNames, succ := effectsSucc, roots := effectsRoots, reach := effectsReach,\n")
-	p("    spawns := effectsSpawns, writes := effectsWrites, reads := effectsReads }\n\n")
+	p("    spawns := effectsSpawns, writes := effectsWrites, reads := effectsReads, externs := effectsExterns }\n\n")
 	nw, ng, nr, nrg := 0, 0, 0, 0
 	for _, a := range writes {
 		if reach[a.fn] {
@@ -407,6 +459,9 @@ func main() {
 	fmt.Fprintf(os.Stderr, "effects: %d functions, %d edges, %d roots, %d reachable; shared writes in reachable functions %d (guarded %d); guarded-location reads %d (guarded %d)\n",
 		n, nedges, len(roots), nreach, nw, ng, nr, nrg)
 	if *explain {
+		for _, e := range externs {
+			fmt.Fprintf(os.Stderr, "EXTERN %s\n", e)
+		}
 		for _, a := range writes {
 			if reach[a.fn] {
 				fmt.Fprintf(os.Stderr, "WRITE guard=%d %-10s %-50s in %s (%s)\n", a.guard, a.kind, a.target, w.name[a.fn], a.pos)
@@ -418,6 +473,92 @@ func main() {
 			}
 		}
 	}
+}
+
+// instancesFile: Go source instantiating every generic function and every generic (non-interface) type of
+// the package once; the types are converted to an interface so that their method sets (wrappers included)
+// are built.
+func instancesFile(pkg *packages.Package) string {
+	var lines []string
+	scope := pkg.Types.Scope()
+	for _, name := range scope.Names() {
+		var tps *types.TypeParamList
+		isType := false
+		switch obj := scope.Lookup(name).(type) {
+		case *types.Func:
+			tps = obj.Type().(*types.Signature).TypeParams()
+		case *types.TypeName:
+			if n, ok := obj.Type().(*types.Named); ok && !obj.IsAlias() {
+				if _, isIface := n.Underlying().(*types.Interface); !isIface {
+					tps = n.TypeParams()
+					isType = true
+				}
+			}
+		}
+		if tps == nil || tps.Len() == 0 {
+			continue
+		}
+		var args []string
+		subst := map[string]string{}
+		for i := 0; i < tps.Len(); i++ {
+			a := typeArgFor(tps.At(i).Constraint(), subst)
+			subst[tps.At(i).Obj().Name()] = a
+			args = append(args, a)
+		}
+		inst := fmt.Sprintf("%s[%s]", name, strings.Join(args, ", "))
+		if isType {
+			lines = append(lines, fmt.Sprintf("\t\t(*%s)(nil),", inst))
+		} else {
+			lines = append(lines, fmt.Sprintf("\t\t%s,", inst))
+		}
+	}
+	if len(lines) == 0 {
+		return ""
+	}
+	return "package " + pkg.Types.Name() + "\n\nfunc zzEffectsInstances() []any {\n\treturn []any{\n" +
+		strings.Join(lines, "\n") + "\n\t}\n}\n"
+}
+
+// typeArgFor: a type satisfying the constraint: the first term of a union, the constraint itself if it
+// has methods (an interface type implements itself), string for comparable, any otherwise
+func typeArgFor(c types.Type, subst map[string]string) string {
+	noPkg := func(*types.Package) string { return "" }
+	iface, ok := c.Underlying().(*types.Interface)
+	if !ok {
+		return "any"
+	}
+	var union func(it *types.Interface) string
+	union = func(it *types.Interface) string {
+		for i := 0; i < it.NumEmbeddeds(); i++ {
+			switch e := it.EmbeddedType(i).(type) {
+			case *types.Union:
+				return types.TypeString(e.Term(0).Type(), noPkg)
+			default:
+				if sub, isIface := e.Underlying().(*types.Interface); isIface {
+					if r := union(sub); r != "" {
+						return r
+					}
+				} else {
+					return types.TypeString(e, noPkg)
+				}
+			}
+		}
+		return ""
+	}
+	if r := union(iface); r != "" {
+		return r
+	}
+	if iface.NumMethods() > 0 {
+		str := types.TypeString(c, noPkg)
+		for name, arg := range subst {
+			str = regexp.MustCompile(`\b`+regexp.QuoteMeta(name)+`\b`).ReplaceAllString(str, arg)
+		}
+		return str
+	}
+	if iface.IsComparable() {
+		return "string"
+	}
+	return "any"
 }
 
 func leanStr(s string) string {
